@@ -497,7 +497,12 @@ func (p Picker) Index(n int, site ...int) int {
 	return int((h + uint64(p.Round)) % uint64(n))
 }
 
-func (p Picker) Pick(class []int, site ...int) int { return class[p.Index(len(class), site...)] }
+func (p Picker) Pick(class []int, site ...int) int {
+	if len(class) == 0 {
+		return 1 // an empty class (lengths the scale map did not foresee, e.g. after a divergence)
+	}
+	return class[p.Index(len(class), site...)]
+}
 
 // Scale of a framed channel.
 type Scale struct {
